@@ -5,6 +5,8 @@ package gofakes3
 import (
 	"io"
 	"time"
+
+	"github.com/johannesboyne/gofakes3/internal/verifhook"
 )
 
 // Exported wrappers around unexported helpers, compiled only with the
@@ -35,3 +37,6 @@ func VerifMetadataHeaders(headers map[string][]string, at time.Time, sizeLimit i
 func VerifValidETag(v string) bool { return validETag(v) }
 
 func VerifNewUploader(b Backend, ts TimeSource) MultipartBackend { return newUploader(b, ts) }
+
+// VerifSetGate installs the function called at every verifhook.Gate.
+func VerifSetGate(f func(name string)) { verifhook.Set(f) }
